@@ -139,6 +139,23 @@ def forbidden_scan():
     return hits
 
 
+def enclosing_decl(errline):
+    """'theorem <name>: ' for a Lean error 'Gnet/X.lean:<line>:<col>: ...' (the last declaration that starts at or before
+    that line), or ''."""
+    m = re.match(r"(\S+\.lean):(\d+):", errline)
+    if not m:
+        return ""
+    try:
+        lines = open(os.path.join(LEAN, m.group(1))).read().splitlines()
+    except OSError:
+        return ""
+    for i in range(min(int(m.group(2)), len(lines)) - 1, -1, -1):
+        d = re.match(r"\s*(?:private\s+|protected\s+)?(theorem|lemma|example|def|instance)\s*([A-Za-z0-9_'.]*)", lines[i])
+        if d:
+            return "%s %s: " % (d.group(1), d.group(2)) if d.group(2) else d.group(1) + ": "
+    return ""
+
+
 def lean_stage(prop, targets, tier):
     """Regenerate, build model exe and the property's proof modules, audit.
     Returns dict(model_ok, proof_ok, broken=[...], theorems={...})."""
@@ -154,6 +171,7 @@ def lean_stage(prop, targets, tier):
         if not ok:
             st["proof_ok"] = False
             bad = re.findall(r"error: (\S+\.lean:\d+:\d+: .*)", err)
+            bad = [enclosing_decl(b) + b for b in bad]
             st["broken"].append("proof obligations of Props/%s no longer check: %s" % (prop, "; ".join(bad[:6]) or err[-1500:]))
         else:
             res, errs = audit(prop)
